@@ -8,6 +8,7 @@ import Rare.Proofs.C17Sel
 import Rare.Proofs.C17Iter
 import Rare.Proofs.C17Heap
 import Rare.Proofs.C17HeapI
+import Rare.Proofs.C17DenE
 import Rare.Proofs.C17Extra
 import Rare.Model.Expr.Std
 import Rare.Gen.C17
@@ -1366,6 +1367,20 @@ theorem pooled_template_line (root : Ctx) (t : C17Heap.Tm) (ht : Total t) (h : C
   obtain ⟨h', e, d, fr⟩ := pooled_template_spec root (C17Heap.depth t + 1) t ht .root h [] (good_root h hp) (by simp)
   exact ⟨_, h', d, e, fr.free⟩
 
+/-- **Every template – sub-expressions that panic included.**  No hypothesis on the template at all: whatever the
+    pool-free model does with `t` in the context the chain denotes – a value, or a panic raised by some leaf while
+    some element is being processed (elements left to right, the first panic ends the evaluation) – the heap
+    machine does the same from every `Good` heap: the same value with a `Frame`d heap, or the same panic.
+    (`valE`, Proofs/C17HeapE.lean, is the common value-level reading: `den_valE`, `ev_valE`.) -/
+theorem pooled_template_any (root : Ctx) (fuel : Nat) (t : C17Heap.Tm)
+    (ref : C17Heap.Ref) (h : C17Heap.Heap) (l : List Nat) (g : Good h l ref) (hf : l.length + C17Heap.depth t < fuel) :
+    match (C17Heap.den t).run (ctxOf root h.objs l) with
+    | .ok v => ∃ h', C17Heap.ev root fuel t ref h = .ok (v, h') ∧ Frame h h' []
+    | .error m => C17Heap.ev root fuel t ref h = .error m := by
+  have := ev_valE root fuel t ref h l g hf
+  rw [← den_valE] at this
+  exact this
+
 /-- **Another evaluation in between changes nothing this one can see.**  Between two steps of an evaluation whose
     context is the chain `l` (its helpers hold those objects), let ANY other total template `t2` be evaluated to
     the end on the same heap – another goroutine's line, with its own root context `root2`.  Afterwards this
@@ -1413,6 +1428,18 @@ theorem pooled_template_needs_exclusive :
       | .error _ => true | .ok _ => false) = true ∧
     (match C17Heap.ev exRoot 50 exNested .root ⟨⟨[0, 1], 2⟩, fun n => ⟨.obj n, [1], [2]⟩⟩ with
       | .ok (v, h') => v == [97, 107, 0, 98, 107] && h'.pool.free == [0, 1] | .error _ => false) = true := by
+  decide +kernel
+
+/-- `{@map {0} <a leaf that panics on the element b>}` on `a␀b`: the model panics with the leaf's message while the
+    second element is processed, and so does the machine. -/
+example :
+    (match C17Heap.ev exRoot 50 (.map (.scalar (Comp.match_ 0))
+        (.scalar (.getMatch 0 fun v => if v = [98] then .panic "boom" else .ret v))) .root
+        ⟨⟨[0, 1], 2⟩, fun n => ⟨.obj n, [1], [2]⟩⟩ with
+      | .error m => m == "boom" | .ok _ => false) = true ∧
+    (match (C17Heap.den (.map (.scalar (Comp.match_ 0))
+        (.scalar (.getMatch 0 fun v => if v = [98] then .panic "boom" else .ret v)))).run exRoot with
+      | .error m => m == "boom" | .ok _ => false) = true := by
   decide +kernel
 
 example : Total exNested :=
@@ -1720,5 +1747,28 @@ example : elems (pack [[97, 0, 120], [98, 0, 120]]) = [[97], [120], [98], [120]]
 example : IsArray (pack [[], [97], []]) [[], [97], []] := isArray_pack _ (by decide)
 /-- F8's shape: a leading separator would read back as an extra empty first element. -/
 example : elems (0 :: pack [[97], [98], [99]]) = [[], [97], [98], [99]] := by decide
+
+/-! ### `{select}` words, `tab`, `@for` at the limit, `MakeArray`, `NextOk` -/
+
+/-- `ab␠␠cd␀e`: a run of delimiters ends one word; NUL separates like a blank. A leading delimiter gives the empty
+    word 0, trailing ones nothing. -/
+example : words [97, 98, 32, 32, 99, 100, 0, 101] = [[97, 98], [99, 100], [101]] ∧
+    words [32, 97] = [[], [97]] ∧ words [97, 0, 0] = [[97]] ∧ words [] = [[]] ∧
+    selectWord [97, 98, 32, 32, 99, 100, 0, 101] 2 = [101] ∧ selectWord [97, 98, 32, 32, 99, 100, 0, 101] 3 = [] ∧
+    selectWord [97, 98, 32, 32, 99, 100, 0, 101] (-1) = [] := by decide
+/-- The hypotheses of `select_agrees_on_plain_arrays` / `words_read_back` hold for `["ab", "é", "-3"]`. -/
+example : ∀ w ∈ ([[97, 98], [195, 169], [45, 51]] : List Bytes), IsPlainWord w := by
+  intro w hw
+  simp only [List.mem_cons, List.not_mem_nil, or_false] at hw
+  rcases hw with e | e | e <;> subst e <;> exact ⟨by decide, by decide⟩
+example : (∀ c ∈ ([97, 32, 0, 98] : Bytes), c ≠ 34) ∧ isWordDelim 0 = true ∧ isWordDelim 9 = true ∧ isWordDelim 34 = false := by
+  decide
+/-- `{tab a b}` then `{select … 1}`: the second value. -/
+example : Funcs.Strings.selectField (join [9] [[97], [98, 99]]) 1 = [98, 99] := by decide +kernel
+/-- Three rounds of `"{0}a"` from `x`. -/
+example : iterN (fun v _ => v ++ [97]) 3 0 [120] = [[120], [120, 97], [120, 97, 97]] := by decide
+example : C17Extra.makeArray [[97], [], [98]] = [97, 0, 0, 98] ∧ C17Extra.makeArray [] = [] ∧
+    (C17Extra.drainOk 7 { S := [97, 97, 97, 97, 97], Delim := [97, 97] } []).map (·.1) = some [[], [], [97]] := by
+  decide +kernel
 
 end Rare.C17
